@@ -33,6 +33,46 @@ Theorem C14_lookup_stable : forall ops1 q ops2,
 Proof. exact lookup_stable_peer. Qed.
 Print Assumptions C14_lookup_stable.
 
+(* The same at the router level (bmp_tcp_in accept loop): a router looked up by
+   (parent = the unit's id, remote address) gets the id it had before, and it is
+   the only candidate. router_match compares (parent, address) only, so the
+   discipline [disc_r units] must keep peer entries from answering router
+   queries: [units] is any set of unit ids; router queries are complete and name
+   a unit id as parent, peer queries name a parent that is NOT a unit id (in the
+   callers: a router's id). *)
+Theorem C14_lookup_stable_router : forall units ops1 q ops2,
+  forallb (disc_r units) (ops1 ++ OForRouter q :: ops2) = true ->
+  N.of_nat (length (ops1 ++ OForRouter q :: ops2)) < two32 - 1 ->
+  let r1 := fst (run ops1) in
+  let id := fst (find_or_register router_match r1 q) in
+  let r2 := fst (run_from (snd (find_or_register router_match r1 q)) ops2) in
+  find_or_register router_match r2 q = (id, r2) /\ reg_find_routers r2 q = [id].
+Proof. exact lookup_stable_router. Qed.
+Print Assumptions C14_lookup_stable_router.
+
+(* ... with the unit ids read off the history itself ([units_of] = the parents its
+   router queries name): [disc_hist] is a closed boolean condition on the history *)
+Theorem C14_lookup_stable_router_hist : forall ops1 q ops2,
+  disc_hist (ops1 ++ OForRouter q :: ops2) = true ->
+  N.of_nat (length (ops1 ++ OForRouter q :: ops2)) < two32 - 1 ->
+  let r1 := fst (run ops1) in
+  let id := fst (find_or_register router_match r1 q) in
+  let r2 := fst (run_from (snd (find_or_register router_match r1 q)) ops2) in
+  find_or_register router_match r2 q = (id, r2) /\ reg_find_routers r2 q = [id].
+Proof. exact lookup_stable_router_hist. Qed.
+Print Assumptions C14_lookup_stable_router_hist.
+
+(* ... and the separation of parents is needed: one peer registered under the
+   router query's own (parent, address) and the router query has two candidates *)
+Theorem C14_router_lookup_needs_discipline :
+  let qr := MkInfo None (Some 1) (Some 9) None None None None None in
+  let qp := MkInfo None (Some 1) (Some 9) (Some 65000) (Some 0) None None None in
+  let ops := [ORegister; OForRouter qr; OForPeer qp] in
+  forallb disc ops = true /\ disc_hist ops = false /\
+  length (reg_find_routers (fst (run ops)) qr) = 2%nat.
+Proof. exact router_lookup_needs_discipline. Qed.
+Print Assumptions C14_router_lookup_needs_discipline.
+
 Theorem C14_children_exact : forall r p id,
   id ∈ reg_ids_for_parent r p <-> exists i, infos r !! id = Some i /\ i_parent i = Some p.
 Proof. exact elem_of_ids_for_parent. Qed.
@@ -70,4 +110,22 @@ Example C14_example :
   forallb disc (ops1 ++ OForPeer q :: ops2) = true /\
   fst (find_or_register peer_match (fst (run ops1)) q) = 3 /\
   fresh_ids (ops1 ++ OForPeer q :: ops2 ++ [OForPeer q]) = [1; 2; 3; 4].
+Proof. vm_compute. repeat split; reflexivity. Qed.
+
+(* non-vacuity of the router-level theorem: unit id 1, a router (1, addr 9) -> id 2,
+   peers of that router (parent 2, one of them with the router's own address 9),
+   a second router, descriptive updates; the history satisfies [disc_hist] (and
+   [disc_r] for units = {1}); the router is found again under id 2, alone *)
+Example C14_router_example :
+  let q := MkInfo None (Some 1) (Some 9) None None None None None in
+  let ops1 := [ORegister] in
+  let ops2 := [OForPeer (MkInfo None (Some 2) (Some 9) (Some 65000) (Some 0) None None None);
+               OForPeer (MkInfo None (Some 2) (Some 3) (Some 65001) None None None None);
+               OForRouter (MkInfo None (Some 1) (Some 8) None None None None None);
+               OUpdate 2 (MkInfo None None None None None None (Some 5) None)] in
+  disc_hist (ops1 ++ OForRouter q :: ops2) = true /\
+  forallb (disc_r (N.eqb 1)) (ops1 ++ OForRouter q :: ops2) = true /\
+  fst (find_or_register router_match (fst (run ops1)) q) = 2 /\
+  reg_find_routers (fst (run (ops1 ++ OForRouter q :: ops2))) q = [2] /\
+  fresh_ids (ops1 ++ OForRouter q :: ops2 ++ [OForRouter q]) = [1; 2; 3; 4; 5].
 Proof. vm_compute. repeat split; reflexivity. Qed.
